@@ -4,7 +4,8 @@
    table) on top of the C03 label model.  `rel_target abits base next d` = (base + next + d) mod 2^abits is the address a relative
    field denotes; `next` = section offset + source offset + region size. *)
 From Coq Require Import ZArith List Bool.
-From Verif Require Import Codec.OffsetModel Labels.LabelsModel Labels.LabelsProofs Reloc.RelocModel Reloc.RelocProofs.
+From Verif Require Import Codec.OffsetModel Labels.LabelsModel Labels.LabelsProofs Reloc.RelocModel Reloc.RelocProofs Reloc.InstalledImage.
+From Verif Require Import Sections.SectionModel Sections.SectionProofs Sections.ChunkModel Sections.CopyProofs Sections.JitReloc.
 Import ListNotations.
 Local Open Scope Z_scope.
 
@@ -132,3 +133,47 @@ Theorem C04_known_base_equiv_addr_entry : forall base asize atoff slots e opc w,
   relocate_entry base asize atoff slots e = inl ({| o_word := w; o_rewrite := None; o_slot := None |}, slots).
 Proof. exact known_base_equiv_addr_entry. Qed.
 Print Assumptions C04_known_base_equiv_addr_entry.
+
+(* AArch64 ADRP with an absolute target (round 2): the relocated field holds target - pc (C04_rel_exact64 with the ADRP format, which
+   refuses anything that is not a multiple of 4096); then the ARCHITECTURAL result Page(pc) + imm * 4096 is the page of the target *)
+Theorem C04_adrp_page_exact : forall pc d target,
+  0 <= pc < 2 ^ 64 -> 0 <= target < 2 ^ 64 -> d mod 4096 = 0 -> (pc + d) mod 2 ^ 64 = target ->
+  ((pc - pc mod 4096) + d) mod 2 ^ 64 = target - target mod 4096.
+Proof. exact adrp_page_exact. Qed.
+Print Assumptions C04_adrp_page_exact.
+
+(* ---- installed image (round 2), composition with C10's model of JitRuntime::_add (Verif.Sections.JitReloc: flatten, relocate with THIS
+   model's `relocate`, copy, shrink).  For every `call <absolute>` site of a program whose sites do not overlap: the bytes found in the
+   installed image at the site are the relocated rel32 word, preceded by FF 15 when the call goes through the address table and by
+   the emitted bytes otherwise ... ---- *)
+Theorem C04_installed_call_site : forall st calls base fill final img h2 i pos target,
+  wf_holder (jh st) -> data_len_ok (jh st) ->
+  (forall h1, flatten (jh st) = (EOk, h1) -> NoDup (map sid h1) /\ (forall s, In s h1 -> 0 <= sid s)) ->
+  jtab st <> Some 0 -> calls_disjoint calls ->
+  jit_add_reloc st calls base fill = (JOk, final, img, h2) ->
+  nth_error calls i = Some (pos, target) ->
+  exists h1 text atoff reserved last r o,
+    flatten (jh st) = (EOk, h1) /\ by_id h1 0 = Some text /\
+    relocate base REG_SIZE atoff reserved last (map (site_entry (soff text)) calls) = inl r /\
+    nth_error (rr_outs r) i = Some o /\
+    (forall k, 0 <= k < 4 -> soff text + pos + 2 + k < final ->
+       cell (flat img) (soff text + pos + 2 + k) = cell (le_bytes 4 (o_word o)) k) /\
+    (forall j, 0 <= j < 2 -> soff text + pos + j < final ->
+       cell (flat img) (soff text + pos + j) =
+       match o_rewrite o with Some (b0, b1) => if j =? 0 then b0 else b1 | None => cell (sdata text) (pos + j) end).
+Proof. exact installed_call_site. Qed.
+Print Assumptions C04_installed_call_site.
+
+(* ... and that word reaches the target: directly (end of instruction + rel32 = target) or through slot `slot` of the relocated address
+   table, which holds the target (FF /2 through [rip + rel32] = base + table offset + 8 * slot) *)
+Theorem C04_installed_call_reaches : forall base atoff reserved last text_off calls r i pos target o,
+  relocate base REG_SIZE atoff reserved last (map (site_entry text_off) calls) = inl r ->
+  nth_error calls i = Some (pos, target) -> nth_error (rr_outs r) i = Some o ->
+  let next := text_off + pos + CALL_LEN in
+  let d := decode_kind K_Rel32 (o_word o) in
+  (o_rewrite o = None /\ rel_target 64 base next d = target mod 2 ^ 64) \/
+  (o_rewrite o = Some (255, 21) /\
+   exists slot, 0 <= slot /\ nth_error (rr_table r) (Z.to_nat slot) = Some target /\
+                rel_target 64 base next d = (base + atoff + slot * REG_SIZE) mod 2 ^ 64).
+Proof. exact call_out_reaches. Qed.
+Print Assumptions C04_installed_call_reaches.
